@@ -66,9 +66,6 @@ XINTS = ["u16_t", "i64_t", "enum e1", "enum e2"]      # typedef'ed integers and 
 EXT = EXT_INTS + XINTS + ["char16_t", "char32_t"] + XPTRS
 PTR_KINDS = ("pc", "pi", "ps", "puc", "pb", "pv", "pw")
 BIN8 = ["signed char", "unsigned short", "int", "unsigned long", "float", "double", "int *", "struct s3"]
-# result types of the unary functions in the quick tier (one per conversion routine; thorough: all 23)
-QUICK_R = ["signed char", "unsigned short", "int", "unsigned int", "long", "unsigned long long", "_Bool", "char",
-           "wchar_t", "float", "double", "int *", "struct s1", "struct s3", "struct s4", "void"]
 
 STRUCT_DECLS = """
 typedef unsigned short u16_t;
@@ -818,7 +815,7 @@ def functions(tier):
 
     def add(fam, R, A):
         fns.append((fam, "f%d" % next(n), R, tuple(A)))
-    rset = CORE + ["void"] if tier != "quick" else QUICK_R
+    rset = CORE + ["void"]
     for A in CORE:
         for R in rset:
             add("u", R, [A])
@@ -1023,7 +1020,7 @@ def run(ctx):
                         len(POOL), "product of the reduced alphabets, one result type per pair" if ctx.quick
                         else "product of the full alphabets, all 8 result types", 4 if ctx.quick else 7, len(V_EXTRAS)),
             "exhaustive": True,
-            "bound": {"unary": "22 x %d core types + 3 x %d extended" % (len(QUICK_R) if ctx.quick else 23, len(EXT)), "binary_types": 8,
+            "bound": {"unary": "22 x 23 core types + 3 x %d extended" % len(EXT), "binary_types": 8,
                       "binary_result_types": 1 if ctx.quick else 8, "binary_alphabet": "reduced" if ctx.quick else "full",
                       "multi_values_per_arg": 4 if ctx.quick else 7},
         }
